@@ -632,13 +632,21 @@ class B(object):
         if self.chance(20):
             self.features.add('decorator')
             d = self.pick(['use', 'use'] + [f for f, s in self.funcs.items() if s[0] <= 1 <= s[1] and not s[2] and f != fname])
+            if self.chance(50):
+                # a decorator expression that reads names: visible there is what is bound where the statement stands
+                d = 'use(%s)' % self._read(dict(ctx, hard_forbid=True), own_forbid)
+                self.features.add('decorator-reads-name')
             deco.append(ind + '@' + d)
         params, sig = self.params(ctx, is_method, own_forbid)
         ret = ''
         if self.chance(15):
             ret = ' -> %s' % self._read(dict(ctx, hard_forbid=True), own_forbid)
             self.features.add('return-annotation')
-        lines = deco + [ind + 'def %s(%s)%s:' % (fname, ', '.join(params), ret)]
+        kw = 'def'
+        if deco and deco[0].strip().startswith('@use') and not is_method and self.chance(30):
+            kw = 'async def'            # never called (the decorator replaces it): only its header is evaluated
+            self.features.add('async-def')
+        lines = deco + [ind + '%s %s(%s)%s:' % (kw, fname, ', '.join(params), ret)]
         pnames = sig['names']
         c2 = dict(ctx, in_func=True, in_loop=False, in_class=False, in_class_direct=False, in_block=False,
                   extra_reads=list(ctx.get('extra_reads', [])) + pnames, func_depth=ctx.get('func_depth', 0) + 1,
@@ -670,7 +678,7 @@ class B(object):
         if not deco or deco[0].endswith('use') is False:
             pass
         if not ctx.get('in_class_direct'):
-            if deco and deco[0].strip() == '@use':
+            if deco and deco[0].strip().startswith('@use'):
                 self.funcs.pop(fname, None)
             else:
                 self.funcs[fname] = (sig['lo'], sig['hi'], sig['kwreq'], [])
